@@ -53,6 +53,10 @@ func FlagPlumbing(prop string) func(sc *core.Scratch, ev *core.Evidence, rep *co
 			mk([]string{"-pkg", "p_test"}, func(q *gen.GenReq) { q.PkgName = "p_test" }),
 			mk([]string{"-pkg", "mocks", "-skip-ensure"}, func(q *gen.GenReq) { q.PkgName, q.SkipEnsure = "mocks", true }),
 			mk([]string{"-stub", "-with-resets"}, func(q *gen.GenReq) { q.Stub, q.WithResets = true, true }),
+			// flags that do not reach the library must not reach the output either
+			mk([]string{"-rm"}, func(q *gen.GenReq) {}),
+			mk([]string{"-rm", "-stub", "-fmt", "noop"}, func(q *gen.GenReq) { q.Stub, q.Fmt = true, "noop" }),
+			mk([]string{"-out", ""}, func(q *gen.GenReq) {}),
 			mk([]string{"-stub", "-skip-ensure", "-with-resets", "-pkg", "mocks", "-fmt", "noop"}, func(q *gen.GenReq) {
 				q.Stub, q.SkipEnsure, q.WithResets, q.PkgName, q.Fmt = true, true, true, "mocks", "noop"
 			}),
